@@ -418,7 +418,7 @@ int main(int argc, char **argv)
             } else {
                 struct sb out = { 0, 0, 0 };
                 live_bytes = 0;
-                cpu_limit(20000);
+                cpu_limit(4000);
                 probe(x, num, &out);
                 cpu_limit(0);
                 puts(out.p);
